@@ -411,7 +411,8 @@ func redactPipelineStage(stage interface{}, redactFieldNames bool, keyPath []str
 						}
 						newMap.Set(redactedKey, redactedArr)
 					} else {
-						newMap.Set(redactedKey, v)
+						// a single clause given without the enclosing array (compound.must: {text: ...})
+						newMap.Set(redactedKey, redactPipelineStage(v, redactFieldNames, newKeyPath, inSearchStage))
 					}
 					continue
 				}
@@ -469,7 +470,7 @@ func redactPipelineStage(stage interface{}, redactFieldNames bool, keyPath []str
 										}
 										newSubMap.Set(subK, redactedArr)
 									} else {
-										newSubMap.Set(subK, subV)
+										newSubMap.Set(subK, redactPipelineStage(subV, redactFieldNames, newKeyPath, inSearchStage))
 									}
 									continue
 								case Pipeline:
